@@ -120,6 +120,7 @@ type run struct {
 	newRunnerErr error
 	runErr       error
 	cancelled    bool // the injected cancellation fired
+	failed       bool // the injected I/O error was returned by one database operation
 	crashed      bool // the injected crash fired
 }
 
@@ -153,8 +154,12 @@ func (g gate) String() string {
 var noGate = gate{stage: -1}
 
 func runOnce(img *memory.Database, net *networks.Network, fl flags, crashAt, cancelAt int, g gate) *run {
+	return runOnceF(img, net, fl, crashAt, cancelAt, 0, g)
+}
+
+func runOnceF(img *memory.Database, net *networks.Network, fl flags, crashAt, cancelAt, failAt int, g gate) *run {
 	f := newFaultDB(img)
-	f.crashAt, f.cancelAt = crashAt, cancelAt
+	f.crashAt, f.cancelAt, f.failAt = crashAt, cancelAt, failAt
 	switch g.stage {
 	case idxBlockTransactions:
 		f.setGate(g.stage, db.BlockHeaderByNumberKey(g.block), g.commits)
@@ -178,6 +183,7 @@ func runOnce(img *memory.Database, net *networks.Network, fl flags, crashAt, can
 	f.mu.Lock()
 	r.crashed = f.crashed
 	r.cancelled = f.cancelAt != 0 && f.ops >= f.cancelAt
+	r.failed = f.failed
 	f.mu.Unlock()
 	return r
 }
@@ -313,6 +319,9 @@ func (k *realCase) checkRun(r *run, what string) {
 	live, _ := readMeta(r.f.inner, nRealMigrations)
 	for _, e := range r.tr.evs {
 		if e.kind == "migrate" && e.stateNil && e.err == nil && !live.CurrentVersion.Has(uint8(e.idx)) {
+			if r.failed && r.runErr != nil {
+				continue // the runner's own bookkeeping write is what failed; Run reported it
+			}
 			c.Violation("completion-not-recorded", "%s: Migrate(migration %d) returned (nil,nil) but the applied bit is not set (current=%b, Run error %v)", what, e.idx, live.CurrentVersion, r.runErr)
 		}
 	}
@@ -320,6 +329,9 @@ func (k *realCase) checkRun(r *run, what string) {
 		if r.runErr != nil && !errors.Is(r.runErr, context.Canceled) {
 			c.Violation("cancel-error-shape", "%s: cancelled Run returned %v (want nil or the context's error)", what, r.runErr)
 		}
+	} else if r.failed {
+		// one database operation failed: Run may report it or get by without that operation; what the next process finds is
+		// judged by checkImage and by the final image
 	} else if r.runErr != nil {
 		c.Violation("run-failed", "%s: Run(%s) failed without any injected fault: %v", what, r.fl, r.runErr)
 	}
@@ -422,7 +434,7 @@ func (k *realCase) checkRefusals(img *memory.Database, md migration.SchemaMetada
 }
 
 type interruption struct {
-	kind string // "crash" | "cancel" | ""
+	kind string // "crash" | "cancel" | "fail" (the k-th database operation returns an I/O error, the process exits) | ""
 	k    int
 }
 
@@ -454,19 +466,21 @@ func (k *realCase) scenario(first interruption, extra []interruption, final flag
 		if r < len(plan) {
 			in = plan[r]
 		}
-		crashAt, cancelAt := 0, 0
+		crashAt, cancelAt, failAt := 0, 0, 0
 		switch in.kind {
 		case "crash":
 			crashAt = in.k
 		case "cancel":
 			cancelAt = in.k
+		case "fail":
+			failAt = in.k
 		}
 		what := fmt.Sprintf("%s: plan %v, run %d (%s, %s)", desc, plan, r, fl, in)
 		floorBefore := uint64(0)
 		if len(o.blocks) > 0 {
 			floorBefore = o.imgFloor(img)
 		}
-		res := runOnce(img, k.net, fl, crashAt, cancelAt, g)
+		res := runOnceF(img, k.net, fl, crashAt, cancelAt, failAt, g)
 		if res.f.gateTimedOut {
 			c.Info("gate-timeouts")
 			if os.Getenv("C18_DEBUG") != "" {
@@ -474,6 +488,11 @@ func (k *realCase) scenario(first interruption, extra []interruption, final flag
 			}
 		}
 		if res.newRunnerErr != nil {
+			if in.kind == "fail" && errors.Is(res.newRunnerErr, errIO) {
+				// the failing operation was NewRunner's own read of the schema metadata: the process exits, nothing was written
+				c.Label("io-error-in-NewRunner")
+				continue
+			}
 			c.Violation("restart-refused", "%s: NewRunner refused: %v", what, res.newRunnerErr)
 		}
 		k.checkRun(res, what)
@@ -482,7 +501,7 @@ func (k *realCase) scenario(first interruption, extra []interruption, final flag
 				completed.Set(uint8(e.idx))
 			}
 		}
-		if r == 0 && (res.crashed || res.cancelled) {
+		if r == 0 && (res.crashed || res.cancelled || res.failed) {
 			ref := k.reference(k.flagsAt(final, tg, 0))
 			hs := res.f.hitStage
 			firstHit = hs
@@ -501,7 +520,7 @@ func (k *realCase) scenario(first interruption, extra []interruption, final flag
 				// opted into at a later restart than the one in which that migration was interrupted
 				c.Labelf("prune:opted-into-after-the-restart-that-interrupted-migration-%d", firstHit)
 			}
-			if (res.crashed || res.cancelled) && res.f.hitStage == idxHistoryPruner {
+			if (res.crashed || res.cancelled || res.failed) && res.f.hitStage == idxHistoryPruner {
 				c.Label("prune:history-prune-migration-itself-interrupted")
 			}
 			prunerEntered = true
@@ -531,14 +550,14 @@ func (k *realCase) scenario(first interruption, extra []interruption, final flag
 				return
 			}
 		}
-		if (res.crashed || res.cancelled) && o.staleStagerClass(img) {
+		if (res.crashed || res.cancelled || res.failed) && o.staleStagerClass(img) {
 			c.Label("restart-image:stale-stager-checkpoint-over-unstaged-history")
 			if stats.Known(keyPruneStaleStager) {
 				c.Excluded(keyPruneStaleStager)
 				return
 			}
 		}
-		if (res.crashed || res.cancelled) && o.emptyGapClass(img) {
+		if (res.crashed || res.cancelled || res.failed) && o.emptyGapClass(img) {
 			c.Label("restart-image:only-empty-blocks-left-unmigrated")
 			if stats.Known(keyEmptyGap) {
 				c.Excluded(keyEmptyGap)
@@ -550,11 +569,13 @@ func (k *realCase) scenario(first interruption, extra []interruption, final flag
 			c.Info("crash-points")
 		} else if res.cancelled {
 			c.Info("cancel-points")
+		} else if res.failed {
+			c.Info("io-error-points")
 		}
-		if r == 0 || res.crashed || res.cancelled {
+		if r == 0 || res.crashed || res.cancelled || res.failed {
 			k.checkRefusals(img, md, what)
 		}
-		if !res.crashed && !res.cancelled && fl == final {
+		if !res.crashed && !res.cancelled && !(res.failed && res.runErr != nil) && fl == final {
 			// completed: the final image must be the image of the uninterrupted upgrade (under the final flags).
 			// Byte-for-byte equality is demanded also when --prune-mode / --new-state were switched on at a later
 			// restart: measured on the unchanged tree (seeds 1-5, ~1600 toggled cases) it holds, because whatever an
@@ -620,7 +641,7 @@ func TestPropRealMigrations(t *testing.T) {
 	stats.Check(t, stats.Budget{Quick: 100, Thorough: 200},
 		"generated chain (0-26 quick / 0-45 thorough blocks, empty blocks, leading empty runs, sizes around the 10-block batch boundaries) stored through Blockchain.Store, L1 head record none/behind/equal/ahead of the local head, converted back to the previous layout "+
 			"(per-tx buckets via txlayout, commitments without StateDiffLength; 1/4: prefix pruned by pruner.PruneUpto with migrations 0,1 pre-applied); real Runner with the node's registry, the history-prune migration built with a drawn --prune-mode value (0,1,2,5,> chain; minAge 0); reference = uninterrupted run; "+
-			"then crash after commit k / cancel at DB operation k (quick: <= 8 drawn k; thorough: every k) followed by 0-2 drawn further interruptions, --new-state and --prune-mode each enabled from a drawn restart (0,1,2) on; 1/6 of the cases: forced skeleton "+
+			"then crash after commit k / cancel at DB operation k / DB operation k fails with an I/O error and the process exits (quick: <= 8 drawn k; thorough: every k) followed by 0-2 drawn further interruptions, --new-state and --prune-mode each enabled from a drawn restart (0,1,2) on; 1/6 of the cases: forced skeleton "+
 			"(no pruning + cancellation inside the state-diff-length backfill, pruning with a small retention from the next restart on); "+
 			"non-trivial = the first interruption landed strictly inside a migration (after its first commit, before its last), or the resume checkpoint of an interrupted backfill was left below the retention floor established by the history-prune migration at a later restart",
 		func(rt *rapid.T, c *stats.Case) {
@@ -685,8 +706,10 @@ func TestPropRealMigrations(t *testing.T) {
 				n := rapid.IntRange(0, 2).Draw(rt, "extra-interruptions")
 				out := make([]interruption, n)
 				for i := range out {
-					if rapid.Bool().Draw(rt, "extra-kind") {
+					if ek := rapid.IntRange(0, 4).Draw(rt, "extra-kind"); ek < 2 {
 						out[i] = interruption{"crash", 1 + gen.Uniform(rt, maxCommits, "extra-crash")}
+					} else if ek == 4 {
+						out[i] = interruption{"fail", 1 + gen.Uniform(rt, maxOps, "extra-fail")}
 					} else {
 						out[i] = interruption{"cancel", 1 + gen.Uniform(rt, maxOps, "extra-cancel")}
 					}
@@ -711,6 +734,7 @@ func TestPropRealMigrations(t *testing.T) {
 						}
 					}
 					firsts = append(firsts, point{interruption{"cancel", i}, st, false})
+					firsts = append(firsts, point{interruption{"fail", i}, st, false})
 				}
 			} else {
 				n := rapid.IntRange(4, 8).Draw(rt, "npoints")
@@ -739,7 +763,11 @@ func TestPropRealMigrations(t *testing.T) {
 						if rg, ok := ref0.opsOf[st]; ok && rg[1] >= rg[0] {
 							k = rg[0] + gen.Uniform(rt, rg[1]-rg[0]+1, "cancel-k-in-stage")
 						}
-						firsts = append(firsts, point{interruption{"cancel", k}, st, false})
+						kind := "cancel"
+						if i%4 == 3 { // a quarter of the points: the operation FAILS (I/O error) instead of being the one a cancellation lands at
+							kind = "fail"
+						}
+						firsts = append(firsts, point{interruption{kind, k}, st, false})
 					}
 				}
 			}
